@@ -531,7 +531,7 @@ pub fn run(tier: Tier, seed: u64, replay: Option<Value>) -> i32 {
         };
         fire(&sut.server, &bytes, Duration::from_millis(100));
         let h = health(&mut sut.server, sentinel);
-        println!("replay: {:?}", h);
+        crate::outln!("replay: {:?}", h);
         return if h == Health::Ok { 0 } else { 1 };
     }
 
